@@ -168,6 +168,7 @@ where
         comms: vec![],
         states: vec![],
         bounds: bounds_opt,
+        shb: sup,
     };
     let (qs, ev) = generic::query_set::<S>(&mut rng, &inst, 2, false);
     inst.comms.clear();
